@@ -122,7 +122,8 @@ def reader_layout(ctx: Ctx, fn: Func) -> None:
     if heads_:
         from ..flow import disjunctive
 
-        watch = {t_arg.id} | {c.args[1].id for c in deliver if isinstance(c.args[1], ast.Name)}
+        assigned_here = {t.id for x in own_nodes(fn.node) for t in ((x.targets if isinstance(x, ast.Assign) else [x.target]) if isinstance(x, (ast.Assign, ast.AnnAssign, ast.AugAssign, ast.NamedExpr)) else []) if isinstance(t, ast.Name)}
+        watch = ({t_arg.id} | {c.args[1].id for c in deliver if isinstance(c.args[1], ast.Name)}) & assigned_here  # module constants (the empty payload) are not locals
 
         def step_i(n: Node, st: frozenset, label: str):
             if label == "exc":
